@@ -320,7 +320,7 @@ class Translator:
 
     def expr(self, text):
         try:
-            tree = ast.parse(_desugar(text.strip()), mode='eval')
+            tree = ast.parse(_desugar(text.strip()).strip(), mode="eval")
         except SyntaxError as ex:
             raise ClauseError('clause syntax: %s in %r' % (ex, text))
         return self.ev(tree.body)
@@ -560,7 +560,7 @@ class Translator:
         raise ClauseError('unknown function %s in clause' % f)
 
     def expr_nested(self, text):
-        tree = ast.parse(_desugar(text.strip()), mode='eval')
+        tree = ast.parse(_desugar(text.strip()).strip(), mode="eval")
         return self.ev(tree.body)
 
     def _lit(self, node):
